@@ -473,7 +473,8 @@ def gen_history(rng, target):
 def generate(ctx):
     rng = ctx.rng
     targets = ctx.n([3, 80, 800, 2700], [3, 30, 75, 150, 230, 450, 800, 1200, 1800, 2700, 4000, 6000])
-    return [gen_history(rng, t) for t in targets]
+    # > 17694 alive at once reaches the 14th growth step (81 pages); cheap: no model steps, only arithmetic
+    return [gen_history(rng, t) for t in targets] + [dict(bulk=ctx.n(20500, 60000))]
 
 
 # ---------------------------------------------------------------- model literals
@@ -545,16 +546,80 @@ def predicate(case, outs):
 
 def run_one(ctx, case):
     s = ctx.scratch()
-    out, p = s.run_worker("c29_worker.py", dict(ops=case["ops"]), timeout=900)
+    payload = dict(case) if "bulk" in case else dict(ops=case["ops"])
+    out, p = s.run_worker("c29_worker.py", payload, timeout=900)
     if out is None:
         if p.returncode == 1 and "Traceback" in p.stderr:
             raise RuntimeError("C29 worker: internal error: " + p.stderr[-1500:])
         last = 0
         for line in p.stderr.splitlines():
-            if line.startswith("OP "):
-                last = int(line[3:])
+            if line.startswith(("OP ", "BULK ")):
+                last = int(line.split()[1])
         return None, (p.returncode, last)
     return out, None
+
+
+def geometry(ctx):
+    """(pagesize, sizeof(ffi_closure)) from the gcc-compiled helper"""
+    import ctypes
+    import subprocess
+    s = ctx.scratch()
+    so = os.path.join(s.work, "c29_geom.so")
+    if not os.path.exists(so):
+        subprocess.check_call(["gcc", "-w", "-shared", "-fPIC", "-I/usr/include/ffi", "-o", so,
+                               os.path.join(vlib.ROOT, "tools", "props", "c", "c29_helper.c")])
+    lib = ctypes.CDLL(so)
+    lib.c29_pagesize.restype = ctypes.c_long
+    lib.c29_sizeof_closure.restype = ctypes.c_long
+    return int(lib.c29_pagesize()), int(lib.c29_sizeof_closure())
+
+
+def gen_arithmetic(ctx):
+    """on the REGENERATED more_core() text (C29/Gen.v): the first growth step whose threaded items do not fit
+    into its mapping (None if there is none within 60 steps), and the block sizes of the first 24 steps"""
+    ps, bs = geometry(ctx)
+    ok, text = vlib.coq_eval(["C29.Prog", "C29.Gen"],
+                             "Eval vm_compute in first_overflow %s %s more_core_prog 60 0 0 0.\n"
+                             "Eval vm_compute in block_counts %s %s more_core_prog 24 0.\n" % (cz(ps), cz(bs), cz(ps), cz(bs)))
+    if not ok:
+        return None, None, text
+    chunks = re.split(r"^\s*= ", text, flags=re.M)[1:]
+    m = re.search(r"Some \((\d+)%N, (\d+), (\d+), (\d+)\)", chunks[0])
+    witness = tuple(int(x) for x in m.groups()) if m else None
+    counts = [int(x) for x in re.findall(r"-?\d+", chunks[1].split(":")[0])]
+    return witness, counts, None
+
+
+def evaluate_bulk(ctx, case, counts):
+    out, died = run_one(ctx, case)
+    n = case["bulk"]
+    if died:
+        ctx.violation(case, "process died (rc=%s) while keeping %d callbacks alive at once (about %d were alive)"
+                      % (died[0], n, died[1]))
+        return
+    ctx.count(n + out["called"])
+    ctx.hist("bulk_alive", n)
+    ctx.nontrivial(("bulk", n))
+    if out["distinct"] != n:
+        ctx.violation(case, "%d live callbacks have only %d distinct addresses" % (n, out["distinct"]))
+    if out["outside"]:
+        ctx.violation(case, "live callback #%d has its closure at %#x, outside every writable+executable mapping "
+                            "of the process" % tuple(out["outside"][0]))
+    if out["wrong"]:
+        ctx.violation(case, "with %d callbacks alive, calling #%d (%s route) ran function %d" % (
+            n, out["wrong"][0][0], out["wrong"][0][1], out["wrong"][0][2]))
+    if counts:
+        want, tot = [], 0
+        for c in counts:
+            tot += c
+            if tot < n:
+                want.append(tot)
+        if out["breaks"] != want:
+            ctx.mismatch(case, "block boundaries observed in the address sequence %r, the regenerated more_core() "
+                               "arithmetic gives %r" % (out["breaks"][:20], want[:20]),
+                         "C29.Gen.more_core_prog block sizes vs observed closure addresses")
+
+
 
 
 def model_check(cases_outs):
@@ -634,6 +699,23 @@ def shrink(ctx, case, kind, out=None):
 
 def evaluate(ctx, cases):
     done = []
+    bulk = [c for c in cases if "bulk" in c]
+    cases = [c for c in cases if "bulk" not in c]
+    if bulk:
+        witness, counts, err = gen_arithmetic(ctx)
+        if err:
+            ctx.obligation_broken("C29 Gen evaluation", err)
+        ctx.extra["gen_first_overflow"] = witness
+        if witness and not ctx.replay_mode:
+            step, total, fit, threaded = witness
+            need = total + threaded + 10
+            ctx.extra["gen_first_overflow_text"] = (
+                "regenerated more_core(): growth step %d maps room for %d items but threads %d onto the free list; "
+                "manifests with more than %d callbacks alive at once" % (step, fit, threaded, total))
+            if need <= 400000:
+                bulk = [dict(bulk=max(need, b["bulk"])) for b in bulk[:1]]
+        for b in bulk:
+            evaluate_bulk(ctx, b, counts)
     for case in cases:
         out, died = run_one(ctx, case)
         if died:
@@ -685,6 +767,8 @@ def evaluate(ctx, cases):
             mo.get(0), canon_outs(out2["outs"])), "C29.Model.run vs malloc_closure.h/b_callback")
     for c in cases[:1]:
         ctx.sample(dict(ops=c["ops"][:40]))
+    for b in bulk:
+        ctx.sample(b)
 
 
 def run(ctx):
